@@ -14,7 +14,8 @@ EXPLANATION = (
     "offsets instead of pointers (NameSet); R19.3 removal by permutation in LPRowSetBase / LPColSetBase moves the parallel arrays for all old indices (the loop "
     "bound is the count before the removal); R19.4 no do-while loop is controlled by a countdown that can be zero at entry (positive control); "
     "R19.5 remove(nums, n) is never implemented by removing one (renumbering) element at a time; R19.6 in SVSetBase the amount inserted in "
-    "place after ensureMem(E) is bounded by E. The abstract-data-type behaviour itself - key stability, dense numbering, permutation "
+    "place after ensureMem(E) is bounded by E; R19.7 no loop condition pre-decrements its counter and no counting loop is bounded by a "
+    "local that is still 0 (positive controls); R19.8 add / append members never clear the receiver. The abstract-data-type behaviour itself - key stability, dense numbering, permutation "
     "results, hash-table deletion, vector arithmetic, sorting - is NOT decided: it quantifies over operation sequences and run-time "
     "contents; the two seeded changes for C19 (hash-table slot marking, insertion sort bound) are of that kind and are not caught.")
 
@@ -274,3 +275,66 @@ def run(fb, rep, tier):
             rep.check(ok, 'R19.6', key, wh, why, 'ensureMem(%s) is followed by an in-place growth by %s, which is evaluated after ensureMem may have packed the memory (max() drops to size()): more is inserted than was reserved, the arena reallocates and every vector keeps pointing into the released block' % (et, at))
     if k6 < 3:
         raise AnalysisBroken('R19.6: only %d in-place growth sites found in SVSetBase' % k6)
+
+
+    # ------------------------------------------------------------------ R19.7
+    # two loop shapes that silently skip work: (a) a for/while condition that is a PRE-decrement of its counter (`--n`) never handles the
+    # element 0 and underflows when the count is zero (the idiom of the code base is the post-decrement `n--`); (b) a counting loop
+    # `i < v` whose bound v is a local that is still the literal 0 when the loop starts never executes.  Expected count: 0; controls.
+    rep.rule('R19.7', 'no loop condition pre-decrements its counter, no counting loop is bounded by a local that is still 0', floor=3)
+    ctl7 = set()
+    n_loops = 0
+    for f in fb.funcs.values():
+        isctl = f.name.startswith('verif_ctl::')
+        if not (f.name.startswith('soplex::') or isctl):
+            continue
+        for n in f.nodes:
+            if n.k not in ('ForStmt', 'WhileStmt') or n.kid('cond') is None:
+                continue
+            n_loops += 1
+            c = strip(n.kid('cond'))
+            if c.k == 'UnaryOperator' and c.o in ('--', 'pre--') and c.c:
+                if isctl:
+                    ctl7.add('predec')
+                else:
+                    rep.bad('R19.7', '%s|loop(--%s)' % (f.name.replace('soplex::', '')[:60], render(strip(c.kids[0]))), '%s:%d' % (f.file, n.l), 'the loop condition pre-decrements %s: the body never runs for the value 0 (the first / last element is skipped) and a count of zero underflows' % render(strip(c.kids[0])))
+            if n.k == 'ForStmt' and c.k == 'BinaryOperator' and c.o == '<' and strip(c.kids[1]).k == 'DeclRefExpr' and strip(c.kids[1]).dk == 'local':
+                v = strip(c.kids[1])
+                d = [x for x in f.nodes if x.k == 'VarDecl' and x.u == v.u]
+                if d and d[0].c and render(d[0].kids[0]) == '0':
+                    inside = set(y.i for y in n.walk())
+                    w = [x for x in f.nodes if d[0].i < x.i < n.i and x.i not in inside and ((x.k in ('BinaryOperator', 'CompoundAssignOperator') and x.o in ('=', '+=', '-=') and render(x.kids[0]) == v.n)
+                                                                         or (x.k == 'UnaryOperator' and x.c and render(x.kids[0]) == v.n and x.o in ('++', 'post++', 'pre++', '&')))]
+                    if not w:
+                        if isctl:
+                            ctl7.add('zero')
+                        else:
+                            rep.bad('R19.7', '%s|loop(i < %s)' % (f.name.replace('soplex::', '')[:60], v.n), '%s:%d' % (f.file, n.l), 'the loop is bounded by %s, which is 0 when the loop starts (it is only changed inside the loop): the body never executes' % v.n)
+    if ctl7 != {'predec', 'zero'}:
+        raise AnalysisBroken('R19.7 positive controls did not fire (%s)' % sorted(ctl7))
+    rep.ok('R19.7', 'control|predecrement_condition', 'units/controls.cpp', 'positive control fires', nontrivial=False)
+    rep.ok('R19.7', 'control|zero_bound_loop', 'units/controls.cpp', 'positive control fires', nontrivial=False)
+    rep.ok('R19.7', 'scan|for/while loops', 'src', '%d loops scanned' % n_loops, nontrivial=False)
+
+    # ------------------------------------------------------------------ R19.8
+    # a member function named add / append extends the container: it does not clear the receiver (that is what operator= / assign do)
+    rep.rule('R19.8', 'add / append members of the container classes never clear the receiver', floor=30)
+    k8 = 0
+    ctl8 = 0
+    for f in fb.funcs.values():
+        isctl = f.name.startswith('verif_ctl::')
+        if f.short not in ('add', 'append', 'add2', 'addIdx') or not f.nodes or not f.cls:
+            continue
+        if not isctl and not ANCHORS.match(f.cls):
+            continue
+        clears = [n for n in f.nodes if n.k == 'CXXMemberCallExpr' and n.short == 'clear' and (n.obj() is None or n.obj().k == 'CXXThisExpr' or render(n.obj()) in ('this', '(*this)'))]
+        if isctl:
+            ctl8 += 1 if clears else 0
+            continue
+        k8 += 1
+        rep.check(not clears, 'R19.8', '%s(%s)' % (f.name.replace('soplex::', '')[:70], ','.join(t for _, t in f.params)[:40]), f.where(), 'does not clear',
+                  '%s is an append operation but calls clear() on its own object first: what was stored before is lost' % f.short)
+    if ctl8 < 1:
+        raise AnalysisBroken('R19.8 positive control (AppendCtl::add) did not fire')
+    if k8 < 30:
+        raise AnalysisBroken('R19.8: only %d add/append members found' % k8)
